@@ -274,6 +274,15 @@ def child_main(args: argparse.Namespace) -> int:
 
 def finish(ctx: Ctx, level: str) -> int:
     """Classify, write evidence and replay files, print verdict lines."""
+    try:
+        note = getattr(load_check(ctx.prop), "LEVEL_NOTE", "")
+    except Exception:  # noqa: BLE001
+        note = ""
+    if note and note not in ctx.assumptions:
+        ctx.assumptions.insert(0, note)
+    base = "trusted base: CPython, asyncio, the `cryptography` package; xknx imported from the working tree; real sockets, gateways and OS scheduling are replaced by in-memory endpoints and a virtual clock"
+    if base not in ctx.assumptions:
+        ctx.assumptions.append(base)
     known = [k for k in load_known() if k.get("property") == ctx.prop]
     new: list[dict[str, Any]] = []
     matched: dict[str, dict[str, str]] = {}
